@@ -105,8 +105,10 @@ func disjoint(iv []interval, n int, circ bool) bool {
 	return true
 }
 
-// Scan finds every site occurrence and derives the cuts by geometry.
-func Scan(seq string, circ bool, e Enzyme) Layout {
+// Scan finds every site occurrence and derives the cuts by geometry. With mixedOverlap, a forward and a
+// reverse occurrence may share letters (BtgZI: CATCGCGATG holds CATCGC and GCGATG) - each is a site of its own and
+// cuts where its geometry says; C10's domain excludes such layouts, C09's designed carriers do not.
+func Scan(seq string, circ bool, e Enzyme, mixedOverlap ...bool) Layout {
 	u := strings.ToUpper(seq)
 	n := len(u)
 	site := strings.ToUpper(e.Site)
@@ -116,18 +118,23 @@ func Scan(seq string, circ bool, e Enzyme) Layout {
 		L.Valid, L.Why = false, "palindromic recognition site"
 		return L
 	}
-	var siteIv, cutIv []interval
+	var siteIv, fwdIv, revIv, cutIv []interval
 	for _, i := range occurrences(u, site, circ) {
 		c := Cut{Start: i + len(site) + e.Skip, Forward: true, SiteStart: i}
-		siteIv = append(siteIv, interval{i, len(site)})
+		siteIv, fwdIv = append(siteIv, interval{i, len(site)}), append(fwdIv, interval{i, len(site)})
 		L.Sites = append(L.Sites, c)
 	}
 	for _, j := range occurrences(u, rsite, circ) {
 		c := Cut{Start: j - e.Skip - e.OverhangLen, Forward: false, SiteStart: j}
-		siteIv = append(siteIv, interval{j, len(site)})
+		siteIv, revIv = append(siteIv, interval{j, len(site)}), append(revIv, interval{j, len(site)})
 		L.Sites = append(L.Sites, c)
 	}
-	if !disjoint(siteIv, n, circ) {
+	if len(mixedOverlap) > 0 && mixedOverlap[0] {
+		if !disjoint(fwdIv, n, circ) || !disjoint(revIv, n, circ) {
+			L.Valid, L.Why = false, "site occurrences of one orientation overlap"
+			return L
+		}
+	} else if !disjoint(siteIv, n, circ) {
 		L.Valid, L.Why = false, "site occurrences overlap"
 		return L
 	}
@@ -152,8 +159,8 @@ func Scan(seq string, circ bool, e Enzyme) Layout {
 // Digest returns the directional fragments: for every forward cut whose next cut is a reverse
 // cut, the stretch from the start of the forward overhang to the end of the reverse overhang.
 // ok is false when the layout is outside the property's domain (see Layout.Why).
-func Digest(seq string, circ bool, e Enzyme) (frags []Fragment, L Layout) {
-	L = Scan(seq, circ, e)
+func Digest(seq string, circ bool, e Enzyme, mixedOverlap ...bool) (frags []Fragment, L Layout) {
+	L = Scan(seq, circ, e, mixedOverlap...)
 	if !L.Valid {
 		return nil, L
 	}
